@@ -78,6 +78,7 @@ NumsT == {IntT(0), IntT(1), IntT(-3), IntT(7), IntT(2), IntE(1, 62), IntE(-1, 63
 NumsQ == {IntT(0), IntT(-3), IntT(7), IntT(2), IntE(1, 62), Flt(0, 0), Flt(3, -1), Flt(-5, -2)}
 Nums4 == {IntT(7), IntT(-3), IntT(2), Flt(1, -1), IntT(0)}
 ArOps == {"add", "subtract", "multiply", "divide"}
+OddBig == {IntA(1, 53, 1), IntA(1, 53, -1), IntA(1, 54, 1), IntA(1, 62, -1), IntA(-1, 53, -1), IntE(1, 53)}
 ArithInits ==
     LET N == IF Thorough THEN NumsT ELSE NumsQ IN
          {InitU(<<<<Z, Fn(op, <<n1>>)>>>>, P(NoT, NoT, NoT)) : op \in ArOps, n1 \in NumsT}
@@ -88,6 +89,9 @@ ArithInits ==
     \cup {InitU(<<<<Z, Fn(op, <<X, Y>>)>>>>, P(n1, n2, NoT)) : op \in ArOps, n1 \in N, n2 \in N}          \* bound variables
     \cup {InitU(<<<<Fn(op, <<X, n2>>), Z>>>>, P(Y, n1, NoT)) : op \in ArOps, n1 \in N, n2 \in N}          \* chain X -> Y -> n1
     \cup {InitU(<<<<n3, Fn(op, <<n1, n2>>)>>>>, P(NoT, NoT, NoT)) : op \in ArOps, n1 \in NumsQ, n2 \in NumsQ, n3 \in NumsQ}
+    (* integers which are no f64: the neighbours of 2^53, 2^54, 2^62, with 0 / 1 / -1, with each other and with their bases *)
+    \cup {InitU(<<<<Z, Fn(op, <<n1, n2>>)>>>>, P(NoT, NoT, NoT)) : op \in {"add", "subtract", "multiply"}, n1 \in OddBig \cup {IntT(1), IntT(-1)}, n2 \in OddBig \cup {IntT(0), IntT(1), IntT(-1)}}
+    \cup {InitU(<<<<Z, Fn(op, <<X, n2, IntT(1)>>)>>>>, P(Y, n1, NoT)) : op \in {"add", "subtract", "multiply"}, n1 \in OddBig, n2 \in {IntT(1), IntT(-1), IntT(0)}}
 
 (* ---- the small universe of the brute-force oracle ("laws") ---- *)
 LawTerms == {a, b, IntT(1), X, Y, Anon, EmptyList,
